@@ -53,6 +53,10 @@ type Spec struct {
 	Consts []ConstSpec `json:"consts"`
 	Preds  []PredSpec  `json:"preds"`
 	Skels  []SkelSpec  `json:"skels"`
+	// additive extensions, see tables.go
+	Enums    []EnumSpec    `json:"enums"`
+	SelSets  []SelSetSpec  `json:"selsets"`
+	CallArgs []CallArgSpec `json:"callargs"`
 }
 
 var fset = token.NewFileSet()
@@ -668,6 +672,7 @@ func genModule(repo string, spec *Spec, outDir string) {
 		}
 		fmt.Fprintf(&cs, "end %s\n\n", c.NS)
 	}
+	genTables(repo, spec, &cs)
 	for i := range spec.Preds {
 		genPred(repo, &spec.Preds[i], &cs)
 	}
